@@ -147,6 +147,10 @@ func docM(v any, kind string) any {
 	return docValueM(v, kind)
 }
 
+// seed and tier of the run (set by famConfig) for the randomised multi-leaf probes
+var getSeed int64 = 1
+var getTier = "quick"
+
 func famGet(tr *Trace, id *int) int {
 	leaves := overridableKeyPaths()
 	n := 0
@@ -209,6 +213,82 @@ func famGet(tr *Trace, id *int) int {
 					if *id%101 == 0 {
 						tr.Index(*id, M{"yaml": y})
 					}
+				}
+			}
+		}
+	}
+	// several leaves at once: the base sets EVERY overridable leaf, the block of f overrides a random subset, the block of g
+	// another one; every leaf is then read back - the overridden ones changed, all the others (siblings inside the same nested
+	// block included) are exactly the base ("nothing else changed")
+	{
+		var ls []KeyPath
+		for _, k := range leaves {
+			if isLeaf(k) && !hasListSeg(k) && k.Kind != "contents" {
+				ls = append(ls, k)
+			}
+		}
+		rng := rand.New(rand.NewSource(getSeed))
+		rounds := 3
+		if getTier == "thorough" {
+			rounds = 40
+		}
+		for fi, f := range allFormats {
+			g := allFormats[(fi+1)%5]
+			h := allFormats[(fi+2)%5]
+			for r := 0; r < rounds; r++ {
+				doc := minimalDoc()
+				inF, inG := map[string]bool{}, map[string]bool{}
+				for _, k := range ls {
+					setPath(doc, k.Segs, sampleValue(k, 1), "")
+					if rng.Intn(3) == 0 {
+						inF[k.String()] = true
+						setPath(doc, append([]string{"overrides", f}, k.Segs...), sampleValue(k, 3), "")
+					}
+					if rng.Intn(3) == 0 {
+						inG[k.String()] = true
+						setPath(doc, append([]string{"overrides", g}, k.Segs...), sampleValue(k, 2), "")
+					}
+				}
+				cfg, y, err := parseDoc(doc, nil)
+				var ig, inf, ih, inf2 *nfpm.Info
+				if err == nil {
+					var e1, e2, e3, e4 error
+					ig, e1 = cfg.Get(g)
+					inf, e2 = cfg.Get(f)
+					ih, e3 = cfg.Get(h)
+					inf2, e4 = cfg.Get(f)
+					if e1 != nil || e2 != nil || e3 != nil || e4 != nil {
+						err = fmt.Errorf("Get failed")
+					}
+				}
+				*id++
+				n++
+				evs := []M{{"ev": "case", "id": *id, "fam": "get", "leaf": "multi"}}
+				for _, k := range ls {
+					base := sampleValue(k, 1)
+					var ovf any = emptyDoc(k.Kind)
+					st := "noleaf"
+					if inF[k.String()] {
+						ovf, st = sampleValue(k, 3), "set"
+					}
+					var ovg any = emptyDoc(k.Kind)
+					if inG[k.String()] {
+						ovg = sampleValue(k, 2)
+					}
+					ev := M{"ev": "get", "id": *id, "leaf": k.String(), "kind": k.Kind, "fmt": f, "g": g, "h": h, "ovstate": st,
+						"base": docM(base, k.Kind), "ovf": docM(ovf, k.Kind), "ovg": docM(ovg, k.Kind),
+						"obs": emptyOf(k.Kind), "obsg": emptyOf(k.Kind), "obsh": emptyOf(k.Kind), "obs2": emptyOf(k.Kind), "err": ""}
+					if err != nil {
+						ev["err"] = safeStr(err.Error())
+					} else {
+						ev["obs"], ev["obsg"], ev["obsh"], ev["obs2"] = readLeaf(inf, k), readLeaf(ig, k), readLeaf(ih, k), readLeaf(inf2, k)
+					}
+					evs = append(evs, ev)
+				}
+				evs = append(evs, M{"ev": "endcase"})
+				tr.Emit(*id, evs)
+				if r == 0 {
+					tr.Index(*id, M{"yaml": y})
 				}
 			}
 		}
@@ -853,6 +933,7 @@ func famConfig(tr *Trace, scratch string, seed int64, tier string, workers int, 
 	st := M{}
 	switch profile {
 	case "get":
+		getSeed, getTier = seed, tier
 		st["get_probes"] = famGet(tr, &id)
 	case "ver":
 		st["version_cases"] = famVer(tr, &id, seed, tier)
